@@ -311,9 +311,9 @@ Theorem resume_waits : forall a s r tmo x',
 Proof.
   intros a s r tmo x' Hpost H. rewrite !count_waits_cwl.
   change (cwl (s_runs s)) with (cw (resume_x0 s)). change (cwl (s_runs (session_ x'))) with (cw x').
-  destruct (resume_decompose _ _ _ _ _ Hpost H) as [(y & wi & c & E & _ & _ & _ & _ & Hy)|(x2 & l & E & HL & Hs & _ & _ & wi & pos & e & op & _ & _ & _ & Hfre)].
+  destruct (resume_decompose _ _ _ _ _ Hpost H) as [(y & wi & c & E & _ & _ & _ & _ & Hy)|(x2 & l & E & HL & Hs & _ & _ & wi & pos & e & op & _ & _ & _ & Hfre & _)].
   - inversion E; subst. split.
-    + eapply Nat.le_trans; [|apply fail_session_cw]. destruct Hy as [->|(pos & ->)]; [unfold cw; simpl; lia|apply apply_resume_cw].
+    + eapply Nat.le_trans; [|apply fail_session_cw]. destruct Hy as [->|(pos & n0 & _ & ->)]; [unfold cw; simpl; lia|apply apply_resume_cw].
     + simpl. discriminate.
   - pose proof (find_resume_exit_cw a (apply_resume (resume_x0 s) wi (Some (wi, pos)) r) wi (is_timeout r) tmo) as Ht.
     rewrite Hfre in Ht. pose proof (apply_resume_cw (resume_x0 s) wi (Some (wi, pos)) r) as Ha.
